@@ -196,9 +196,9 @@ def req_fields(f):
     r = f.request
     _, _, path, _, query, _ = urllib.parse.urlparse(r.url)
     qs = urllib.parse.parse_qsl(query, keep_blank_values=True)
-    hdrs = []
-    for k in dict.fromkeys(k.lower() for k in r.headers.keys()):
-        hdrs.append((_b(k), _b(r.headers.get(k))))
+    # the raw header fields, in order: the case-insensitive lookup and the ", " folding of Headers.get are done by the
+    # Lean transcription hdrGet
+    hdrs = [(bytes(k), bytes(v)) for k, v in r.headers.fields]
     return [eb(_b(str(r.scheme))), eb(_b(str(r.method))), eb(_b(str(path))),
             epairs([(_b(k), _b(v)) for k, v in qs]), eb(_b(r.pretty_host)), str(r.port),
             "N" if r.raw_content is None else eb(r.raw_content),
@@ -243,8 +243,9 @@ class Check(PropertyCheck):
                   "server_replay_refresh on, and only then, the headers Response.refresh() may rewrite (date, expires, "
                   "last-modified, set-cookie) are left out; after every event every recording must still hold its response. "
                   "trusted: SHA-256/repr injectivity on the key lists built by _hash (keyOf is the list before repr); "
-                  "urllib.parse.urlparse/parse_qsl, the multipart/urlencoded decoders and Headers.get deliver the request parts "
-                  "that keyOf consumes (library, fed as data); `host` of the statement is read as pretty_host (Host header "
+                  "urllib.parse.urlparse/parse_qsl and the multipart/urlencoded decoders deliver the request parts that keyOf "
+                  "consumes (fed as data); Headers.get is transcribed (hdrGet: ASCII-case-insensitive names, \", \" folding; "
+                  "header_lookup_spec) and consumes the raw header fields; `host` of the statement is read as pretty_host (Host header "
                   "preferred); (f) hand-written multipart parts whose Content-Disposition is legal but known to be overlooked by "
                   "mitmproxy's decoder (unquoted name token, name*=, upper-case parameter name, Content-Disposition not the first "
                   "header) are left out of `served only if keys equal` and of the decoder-vs-independent-reader clause; identical "
@@ -274,7 +275,9 @@ class Check(PropertyCheck):
                     "mitmproxy.addons.serverplayback:ServerPlayback.load_flows",
                     "mitmproxy.addons.serverplayback:ServerPlayback.clear",
                     "mitmproxy.addons.serverplayback:ServerPlayback.count",
-                    "mitmproxy.addons.serverplayback:ServerPlayback.configure"]
+                    "mitmproxy.addons.serverplayback:ServerPlayback.configure",
+                    "mitmproxy.http:Headers._kconv", "mitmproxy.http:Headers._reduce_values",
+                    "mitmproxy.coretypes.multidict:_MultiDict.get_all"]
     trusted_base = ["hashlib.sha256 and repr() are injective on the key lists built by _hash",
                     "urllib.parse.urlparse/parse_qsl, mitmproxy.net.http.multipart/url decoders, Headers.get"]
     parallel = False
